@@ -57,7 +57,7 @@ func scratchViewMethods(p *core.Prog) map[*ssa.Function]bool {
 func init() {
 	core.Register(&core.Rule{
 		Name: "R-VIEWSCOPE",
-		Doc: "A window into per-search scratch is used where it is taken. A view method (package nfa: a method that returns a sub-slice of a slice field of its receiver - SlotTable.ForState, the capture row of an NFA state) hands out memory that the next simulation step overwrites (the two slot tables swap every step). In every caller the view is only read or written element-wise, measured, compared with nil, re-sliced, or used as an operand of copy / the variadic source of append; it is never kept in a variable that lives across a loop iteration (a phi), stored into a field or cell, returned, or passed to another function. 'bestSlots = table.ForState(match)' instead of copy(bestSlots, ...) keeps the captures of the best match in a row that a later, losing thread reaching Match overwrites - in leftmost-longest mode, an even number of steps later (C10: sub-matches of the reported match; C03).",
+		Doc: "A window into per-search scratch is used where it is taken. A view method (package nfa: a method that returns a sub-slice of a slice field of its receiver - SlotTable.ForState, the capture row of an NFA state) hands out memory that the next simulation step overwrites (the two slot tables swap every step). In every caller the view is only read or written element-wise, measured, compared with nil, re-sliced, or used as an operand of copy / the variadic source of append; it is never kept in a variable that lives across a loop iteration (a phi), stored into a field or cell, returned, or passed to a function that does any of these with its parameter (helpers are followed two calls deep). 'bestSlots = table.ForState(match)' instead of copy(bestSlots, ...) keeps the captures of the best match in a row that a later, losing thread reaching Match overwrites - in leftmost-longest mode, an even number of steps later (C10: sub-matches of the reported match; C03).",
 		Min: 5, NeedSSA: true,
 		Run: func(p *core.Prog) *core.RuleResult {
 			res := &core.RuleResult{}
@@ -86,6 +86,7 @@ func init() {
 						o := core.Obligation{Key: kc.Key("R-VIEWSCOPE", core.FuncName(fn), "view from "+c.Call.StaticCallee().Name()+" consumed in place"), Pos: p.Pos(c.Pos()), Nontrivial: true}
 						bad := ""
 						seen := map[ssa.Value]bool{}
+						depth := 0
 						var check func(v ssa.Value)
 						check = func(v ssa.Value) {
 							if bad != "" || seen[v] || v.Referrers() == nil {
@@ -114,6 +115,24 @@ func init() {
 											}
 											continue
 										}
+									}
+									// a module helper may receive the view if it uses its parameter under the same discipline
+									if cal := x.Call.StaticCallee(); cal != nil && cal.Blocks != nil && depth < 2 {
+										okAll := true
+										for i, a := range x.Call.Args {
+											if a == v && i < len(cal.Params) {
+												depth++
+												check(cal.Params[i])
+												depth--
+												if bad != "" {
+													okAll = false
+												}
+											}
+										}
+										if okAll {
+											continue
+										}
+										return
 									}
 									bad = fmt.Sprintf("passed to %s at %s", calleeNameOf(&x.Call), p.Pos(x.Pos()))
 								case *ssa.Phi:
